@@ -48,6 +48,15 @@ inline bool for_each_gp(const Args& a, Reporter& rep, F f) {
     PC = {{10000, 48000}, {50000, 8000}, {92000, 20000}, {30000, 95000}, {52000, 58000}, {10008, 47991}, {50011, 8007}, {60996, 57497}};
     if (a.seed) for (auto* b : {&PS, &PC}) for (auto& p : *b) { p.x += 37 * (i64)(a.seed % 1009); p.y -= 53 * (i64)(a.seed % 1013); }
   }
+  // "flat" boards: coordinates of the order 10^5..10^6; the clip board's point pairs span edges flatter than 1:100 that cross the subject board's
+  // steep edge (x = 0) two thousandths of a unit above / below the height of a far-away subject vertex (-500, 500, -1500): the crossing then
+  // rounds onto a scanline it does not belong to and the engine has to re-place it on the flat edge (AddNewIntersectNode's out-of-scanbeam
+  // correction, GetClosestPointOnSegment); all vertices and crossings keep a clearance of hundreds of units
+  if (a.opt("board", "generic") == "flat") {
+    PS = {{0, 1000}, {0, -2000}, {-300000, -500}, {300007, 500}, {-299000, -1500}, {13, 2600}, {299001, 1500}, {7, -2700}};
+    PC = {{400000, 1500}, {-600001, -3500}, {-400000, -2500}, {600001, 2500}, {400000, 2500}, {-600001, -2500}, {-400000, -3500}, {600001, 1500}};
+    if (a.seed) for (auto* b : {&PS, &PC}) for (auto& p : *b) { p.x += 37 * (i64)(a.seed % 1009); p.y -= 53 * (i64)(a.seed % 1013); }
+  }
   // "custom": boards given on the command line (--PS "x,y x,y ..." --PC "...")
   if (a.opt("board", "generic") == "custom") {
     Paths ps = parse_paths(a.opt("PS", "")), pc = parse_paths(a.opt("PC", ""));
